@@ -155,6 +155,62 @@ leaf!(Box<CStr>, [CString::new("xy").unwrap().into_boxed_c_str(), CString::new("
 leaf!(Box<OsStr>, [OsString::from("ab").into_boxed_os_str(), OsString::new().into_boxed_os_str()], |s| s.len());
 leaf!(Box<Path>, [PathBuf::from("/x").into_boxed_path(), PathBuf::new().into_boxed_path()], |s| s.as_os_str().len());
 
+// User-defined element types that implement HeapSize themselves and rely on the trait's
+// DEFAULT bulk helpers ("for any iterator handed to them"): a handle without drop glue whose
+// estimate is not constant (memory owned elsewhere, e.g. in an arena), and a buffer with
+// drop glue.
+#[derive(Clone, Copy, PartialEq, Eq, PartialOrd, Ord, Hash, Debug)]
+pub struct Handle(pub u32);
+impl HeapSize for Handle {
+    fn heap_size(&self) -> usize {
+        16 * (self.0 as usize % 3)
+    }
+}
+impl Gen for Handle {
+    fn count() -> usize {
+        3
+    }
+    fn make(i: usize) -> Self {
+        Handle([0u32, 1, 5][i])
+    }
+    fn ref_heap(&self) -> usize {
+        16 * (self.0 as usize % 3)
+    }
+    fn alloc_cmp() -> AllocCmp {
+        // what it reports is not held from the allocator
+        AllocCmp::Skip
+    }
+}
+#[derive(Clone, PartialEq, Eq, PartialOrd, Ord, Hash, Debug)]
+pub struct UserBuf(pub Vec<u8>);
+impl HeapSize for UserBuf {
+    fn heap_size(&self) -> usize {
+        self.0.capacity()
+    }
+}
+impl Gen for UserBuf {
+    fn count() -> usize {
+        3
+    }
+    fn make(i: usize) -> Self {
+        match i {
+            0 => UserBuf(Vec::new()),
+            1 => UserBuf(vec![1, 2, 3]),
+            _ => {
+                let mut v = Vec::with_capacity(11);
+                v.push(9);
+                UserBuf(v)
+            }
+        }
+    }
+    fn ref_heap(&self) -> usize {
+        self.0.capacity()
+    }
+    fn alloc_cmp() -> AllocCmp {
+        AllocCmp::Exact
+    }
+}
+
 macro_rules! plain_leaf {
     ($t:ty, $e:expr) => {
         impl Gen for $t {
